@@ -21,13 +21,24 @@ from .ty import *      # noqa
 from .values import *  # noqa
 
 
+_ENGINE = [None]
+
+
 def bind_target(target, val, frame):
+    E = _ENGINE[0]
     if isinstance(target, ast.Name):
         frame[target.id] = val
     elif isinstance(target, (ast.Tuple, ast.List)):
         if isinstance(val, STuple):
             for t, v in zip(target.elts, val.items):
                 bind_target(t, v, frame)
+        elif isinstance(val, SVal) and isinstance(val.ty, (TTuple, TVal)) and E is not None:
+            dt = E.U.dt(val.ty)
+            tys = val.ty.elems if isinstance(val.ty, TTuple) else list(E.U.all_fields(val.ty.cls).values())
+            if len(tys) != len(target.elts):
+                raise OutsideSubset("unpack arity in binder")
+            for i, (t, fty) in enumerate(zip(target.elts, tys)):
+                bind_target(t, SVal(dt.accessor(0, i)(val.t), fty), frame)
         elif isinstance(val, SVal) and isinstance(val.ty, TTuple):
             raise OutsideSubset("tuple-typed element unpacking in binder")
         else:
@@ -37,6 +48,11 @@ def bind_target(target, val, frame):
 
 
 def binder(E, it, st):
+    _ENGINE[0] = E
+    return _binder(E, it, st)
+
+
+def _binder(E, it, st):
     """-> ('unroll', [values]) | ('sym', [bound consts], guard, element value, index term or None, length term or None)"""
     from .builtins_ import seq_of
     if isinstance(it, STuple):
@@ -54,7 +70,7 @@ def binder(E, it, st):
             lo, hi = it.args
             return ("sym", [i], z3.And(lo.t <= i, i < hi.t), SVal(i, INT), i - lo.t, hi.t - lo.t)
         if it.kind == "enumerate":
-            inner = binder(E, it.args[0], st)
+            inner = _binder(E, it.args[0], st)
             start = it.args[1]
             if inner[0] == "unroll":
                 base = E.coerce(start, INT, st).t if start is not None else z3.IntVal(0)
@@ -294,7 +310,7 @@ def _list_comp(E, gens, elt, st):
             lo_shift = z3.simplify(i - idx)   # i = idx + lo
             zero = z3.is_int_value(lo_shift) and lo_shift.as_long() == 0
             ej = z3.substitute(e.t, (i, j if zero else j + lo_shift))
-            nn = n if (z3.is_app(n) and n.decl().name() == "len") else z3.If(n < 0, 0, n)
+            nn = n if (z3.is_app(n) and n.decl().name().startswith("len!")) else z3.If(n < 0, 0, n)
             dt = Q.list_sort(E.U.sort(ety))
             R = SVal(dt.mkl(nn, z3.Lambda([j], z3.If(z3.And(0 <= j, j < nn), ej, Q.dflt(E.U.sort(ety))))), rty)
             E.assumptions.add("schematic rule MAP: [e(x) for x in xs] is the list (len xs, lambda j. e(xs[j]))")
@@ -305,7 +321,7 @@ def _list_comp(E, gens, elt, st):
         fidx = z3.Function(E.fresh_name("fm_idx"), z3.IntSort(), z3.IntSort())
         finv = z3.Function(E.fresh_name("fm_inv"), z3.IntSort(), z3.IntSort())
         j, j2, k = z3.Int(E.fresh_name("fj")), z3.Int(E.fresh_name("fj2")), z3.Int(E.fresh_name("fk"))
-        nn = n if (z3.is_app(n) and n.decl().name() == "len") else z3.If(n < 0, 0, n)
+        nn = n if (z3.is_app(n) and n.decl().name().startswith("len!")) else z3.If(n < 0, 0, n)
         lenR = Q.Length(R.t)
         _sh = (lambda t: t) if (z3.is_int_value(lo_shift) and lo_shift.as_long() == 0) else (lambda t: t + lo_shift)
         c_at = lambda t: z3.substitute(c, (i, _sh(t)))
